@@ -203,6 +203,13 @@ func (d *c14Data) answer(w *World, p *Peer, lf *LFeat, ctr uint64) {
 			data := &model.MeasurementListDataType{MeasurementData: []model.MeasurementDataType{{MeasurementId: util.Ptr(model.MeasurementIdType(w.Uniq()))}}}
 			cmd = model.CmdType{MeasurementListData: data}
 			a.canon = CanonAny(data)
+			// a reply may be restricted (partial): the callback still gets what was received, not
+			// what the stack made of it
+			if w.T.Bool(1, 3, "partial-reply") {
+				cmd.Function = util.Ptr(model.FunctionTypeMeasurementListData)
+				cmd.Filter = []model.FilterType{*model.NewFilterTypePartial()}
+				w.Probe("c14-partial-reply")
+			}
 		} else {
 			cmd = model.CmdType{LoadControlLimitListData: &model.LoadControlLimitListDataType{}}
 		}
